@@ -12,6 +12,7 @@ pub mod t_model;
 pub mod t_nodemap;
 pub mod t_names;
 pub mod g_roundtrip;
+pub mod p_parse;
 
 pub type Harness = fn();
 pub fn registry() -> Vec<(&'static str, Harness)> {
@@ -25,5 +26,6 @@ pub fn registry() -> Vec<(&'static str, Harness)> {
     t_nodemap::register(&mut v);
     t_names::register(&mut v);
     g_roundtrip::register(&mut v);
+    p_parse::register(&mut v);
     v
 }
